@@ -32,6 +32,7 @@
 
 //! Builder for decision table evaluators.
 
+use crate::errors::err_rule_entries_differ_from_clauses;
 use dmntk_common::Result;
 use dmntk_feel::context::FeelContext;
 use dmntk_feel::values::{Value, Values};
@@ -115,8 +116,10 @@ impl EvaluatedDecisionTable {
         result.set_entry(&self.component_names[i], value.clone());
       }
       Value::Context(result)
+    } else if let Some(value) = evaluated_rule.output_entry_values.first() {
+      value.clone()
     } else {
-      evaluated_rule.output_entry_values[0].clone()
+      value_null!("err_no_output_values")
     }
   }
   /// Returns a result composed from values taken from evaluated output entries.
@@ -294,7 +297,8 @@ fn parse_decision_table(scope: &Scope, decision_table: &DecisionTable) -> Result
     // parse input clause
     let mut input_entries_evaluators = vec![];
     for (i, (input_expression, input_values)) in input_expressions_and_values.iter().enumerate() {
-      let input_entry_node = dmntk_feel_parser::parse_unary_tests(scope, &rule.input_entries[i].text, false)?;
+      let input_entry = rule.input_entries.get(i).ok_or_else(err_rule_entries_differ_from_clauses)?;
+      let input_entry_node = dmntk_feel_parser::parse_unary_tests(scope, &input_entry.text, false)?;
       if let Some(input_values_node) = input_values {
         let left = AstNode::In(Box::new(input_expression.clone()), Box::new(input_values_node.clone()));
         let right = AstNode::In(Box::new(input_expression.clone()), Box::new(input_entry_node));
@@ -308,7 +312,8 @@ fn parse_decision_table(scope: &Scope, decision_table: &DecisionTable) -> Result
     // parse output clause
     let mut output_entries_evaluators = vec![];
     for (i, output_values) in output_values_nodes.iter().enumerate() {
-      let output_entry_node = dmntk_feel_parser::parse_expression(scope, &rule.output_entries[i].text, false)?;
+      let output_entry = rule.output_entries.get(i).ok_or_else(err_rule_entries_differ_from_clauses)?;
+      let output_entry_node = dmntk_feel_parser::parse_expression(scope, &output_entry.text, false)?;
       if let Some(output_value_node) = output_values {
         let node = AstNode::Out(Box::new(output_entry_node), Box::new(output_value_node.clone()));
         output_entries_evaluators.push(dmntk_feel_evaluator::prepare(&node)?);
